@@ -37,6 +37,7 @@ type regSpec struct {
 
 type scenario struct {
 	Regs       []regSpec
+	Primed     bool   // the logger has answered admission questions and issued records before each change of the debug mode (whatever it remembers of its answers is then out of date)
 	DebugHow   string // off | explicit | side-effect
 	LoggerKind string // root-iface | root-entry | child | grandchild
 	L, R       slog.Level
@@ -150,8 +151,22 @@ func run(t vlib.TB, test string, sc scenario) {
 			debug = true
 		}
 	}
+	prime := func() {
+		if !sc.Primed {
+			return
+		}
+		_ = lg.Enabled(sc.R)
+		_ = lg.Enabled(slog.DebugLevel)
+		_ = lg.EnabledContext(context.Background(), slog.InfoLevel)
+		lg.Debug("priming record")
+		lg.LogAttrs(context.Background(), sc.R, "priming record at the severity under test")
+		lg.Warn("priming record")
+		log.Reset()
+	}
+	prime()
 	if sc.DebugLate {
 		setDebug()
+		prime()
 	}
 	if sc.DebugOffAgain && debug {
 		is.SetDebugMode(false)
@@ -173,8 +188,8 @@ func run(t vlib.TB, test string, sc scenario) {
 	if sc.NilCtx {
 		ctx = context.TODO()
 	}
-	where := fmt.Sprintf("%s on %s logger, logger level %d(%v), severity %d(%v), debug mode %v(%s), registry %+v",
-		sc.EP.Name, sc.LoggerKind, int(sc.L), sc.L, int(sc.R), sc.R, debug, sc.DebugHow, sc.Regs)
+	where := fmt.Sprintf("%s on %s logger, logger level %d(%v), severity %d(%v), debug mode %v(%s, changed after the level was set=%v, off again=%v, logger used before the changes=%v), registry %+v",
+		sc.EP.Name, sc.LoggerKind, int(sc.L), sc.L, int(sc.R), sc.R, debug, sc.DebugHow, sc.DebugLate, sc.DebugOffAgain, sc.Primed, sc.Regs)
 
 	func() {
 		defer func() {
@@ -270,6 +285,7 @@ func TestAdmissionGenerated(t *testing.T) {
 		sc.NilCtx = rapid.Bool().Draw(t, "todoCtx")
 		sc.DebugLate = rapid.Bool().Draw(t, "debugModeChangedAfterSetLevel")
 		sc.DebugOffAgain = rapid.IntRange(0, 3).Draw(t, "debugOffAgain") == 0
+		sc.Primed = rapid.Bool().Draw(t, "loggerUsedBeforeTheDebugModeChanges")
 		sc.Bare = rapid.IntRange(0, 3).Draw(t, "bareCall") == 0
 		sc.OwnEnv = rapid.IntRange(0, 4).Draw(t, "applicationProvidedEnvHolder") == 2
 		run(t, "TestAdmissionGenerated", sc)
@@ -297,6 +313,8 @@ func TestAdmissionMatrix(t *testing.T) {
 							// the same cell with the mode switched after the level was set / switched off again
 							run(t, "TestAdmissionMatrix", scenario{DebugHow: dbg, LoggerKind: lk, L: L, R: R, EP: ep, DebugLate: true})
 							run(t, "TestAdmissionMatrix", scenario{DebugHow: dbg, LoggerKind: lk, L: L, R: R, EP: ep, DebugOffAgain: true})
+							run(t, "TestAdmissionMatrix", scenario{DebugHow: dbg, LoggerKind: lk, L: L, R: R, EP: ep, DebugLate: true, Primed: true})
+							run(t, "TestAdmissionMatrix", scenario{DebugHow: dbg, LoggerKind: lk, L: L, R: R, EP: ep, DebugOffAgain: true, Primed: true})
 							n += 2
 						}
 					}
